@@ -47,6 +47,9 @@ struct Outcome {
     inconclusive: Option<String>,
 }
 
+/// the name notify-debouncer-mini gives the thread on which the specfile watcher applies a change
+const WATCHER: &str = "notify-rs debouncer loop";
+
 #[allow(clippy::too_many_arguments)]
 fn execute(
     initial: &MSpec,
@@ -54,16 +57,24 @@ fn execute(
     pre_push: &[Option<MSpec>],
     schedule: Option<&[usize]>,
     noise_seed: u64,
+    // the specfile watcher as one more participant: (fresh directory, specification written to
+    // the specfile while the other calls are under way); it is participant number calls.len()
+    watch: Option<(&std::path::Path, &MSpec)>,
 ) -> Outcome {
     let sink = Recorder::default();
-    let built = Logger::with(initial.to_real_via_builder())
+    let builder = Logger::with(initial.to_real_via_builder())
         .log_to_writer(Box::new(RecWriter {
             rec: sink.clone(),
             ceiling: LevelFilter::Trace,
             honour_ceiling: false,
         }))
-        .error_channel(crate::flw::error_channel())
-        .build();
+        .error_channel(crate::flw::error_channel());
+    let specfile = watch.map(|(d, _)| d.join("logspec.toml"));
+    let built = match &specfile {
+        // the file does not exist yet: it is created with the initial specification
+        Some(f) => builder.build_with_specfile(f),
+        None => builder.build(),
+    };
     let (boxed, handle) = match built {
         Ok(x) => x,
         Err(e) => {
@@ -93,11 +104,19 @@ fn execute(
             });
         }
     }
-    let names: Vec<String> = (0..n).map(|i| format!("c12-t{i}")).collect();
+    let mut names: Vec<String> = (0..n).map(|i| format!("c12-t{i}")).collect();
+    if let Some((_, fspec)) = watch {
+        names.push(WATCHER.to_string());
+        // from_toml adds no default entry
+        submitted.push((*fspec).clone());
+    }
     let name_refs: Vec<&str> = names.iter().map(String::as_str).collect();
     ctl::install(false);
     if schedule.is_some() {
         ctl::sched_control(&name_refs, &["spec_enter", "spec_updated", "spec_exit"]);
+        if watch.is_some() {
+            ctl::sched_finish_after(WATCHER, "spec_exit");
+        }
     } else {
         ctl::with_ctl(|c| {
             c.noise_state = noise_seed | 1;
@@ -131,6 +150,12 @@ fn execute(
         );
     }
     let mut inconclusive = None;
+    if let (Some((_, fspec)), Some(f)) = (watch, &specfile) {
+        // one write; the debouncer hands the change to the watcher about a second later
+        if let Err(e) = std::fs::write(f, fspec.to_toml_text()) {
+            inconclusive = Some(format!("cannot write the specfile: {e}"));
+        }
+    }
     if let Some(sched) = schedule {
         // everybody parks at spec_enter first
         for t in &names {
@@ -138,7 +163,7 @@ fn execute(
                 inconclusive = Some(format!("{t} never reached spec_enter"));
             }
         }
-        let mut running: Vec<bool> = vec![false; n];
+        let mut running: Vec<bool> = vec![false; names.len()];
         if inconclusive.is_none() {
             for &t in sched {
                 // a thread released earlier may meanwhile have parked or finished
@@ -186,7 +211,7 @@ fn execute(
         .map(|(t, p)| {
             format!(
                 "{}{}",
-                t.trim_start_matches("c12-t"),
+                if t == WATCHER { "w" } else { t.trim_start_matches("c12-t") },
                 match p.as_str() {
                     "spec_enter" => "e",
                     "spec_updated" => "u",
@@ -205,7 +230,12 @@ fn execute(
             kept.push(h);
         }
     }
-    ctl::uninstall();
+    // with a watcher the controller stays in place while the final state is judged: should the
+    // debouncer deliver a second event for the one write, the watcher parks instead of changing
+    // the specification under the judge's eyes
+    if watch.is_none() {
+        ctl::uninstall();
+    }
 
     // ------------------------------------------------------------ judge the final state
     let mut refs: Vec<&MSpec> = submitted.iter().collect();
@@ -270,6 +300,35 @@ fn execute(
     if let (Err(_), Some(g)) = (&final_ok, gate_problem) {
         final_ok = Err(("gate-hides-final-spec".into(), g));
     }
+    if watch.is_some() {
+        let applications = ctl::sched_log()
+            .iter()
+            .filter(|(t, p)| t == WATCHER && p == "spec_enter")
+            .count();
+        let late = matches!(ctl::sched_peek(WATCHER), Parked::At(_));
+        if inconclusive.is_none() && (applications != 1 || late) {
+            // the one write was delivered as several changes: "all changes have returned" cannot
+            // be told from outside for this execution
+            inconclusive = Some(format!(
+                "the watcher applied the one specfile write {applications} time(s){}",
+                if late { ", once more while the final state was judged" } else { "" }
+            ));
+        }
+        // stop the debouncer first, then let a parked late application run out
+        drop(kept);
+        drop(handle);
+        ctl::sched_reset();
+        ctl::uninstall();
+        if late {
+            std::thread::sleep(Duration::from_millis(100));
+        }
+        drop(boxed);
+        return Outcome {
+            fingerprint,
+            final_ok,
+            inconclusive,
+        };
+    }
     drop(kept);
     drop(handle);
     drop(boxed);
@@ -282,7 +341,16 @@ fn execute(
 
 pub fn run_case(ctx: &mut CaseCtx) -> CaseResult {
     let rng = &mut ctx.rng;
-    let n = if rng.chance(1, 4) { 3 } else { 2 };
+    // every 20th case has the specfile watcher as one more participant (each execution then
+    // costs the debouncer's second, so few schedules per case)
+    let watcher_case = ctx.case % 20 == 19;
+    let n = if watcher_case {
+        if rng.chance(1, 3) { 2 } else { 1 }
+    } else if rng.chance(1, 4) {
+        3
+    } else {
+        2
+    };
     let initial = spec::gen_mspec(rng, false, false);
     let mut calls = Vec::new();
     let mut pre_push: Vec<Option<MSpec>> = Vec::new();
@@ -324,6 +392,63 @@ pub fn run_case(ctx: &mut CaseCtx) -> CaseResult {
         })
         .collect();
     let mut res = CaseResult::new(format!("t{n}|{}", kinds.join("+")));
+    if watcher_case {
+        let with_text = rng.chance(1, 4);
+        let mut fspec = spec::gen_mspec(rng, with_text, false);
+        if rng.chance(1, 2) {
+            fspec.entries.retain(|e| e.0.is_some());
+            fspec.entries.push((None, *rng.pick(&spec::FILTERS)));
+        }
+        let mut scheds = all_schedules(n + 1, 3);
+        for i in (1..scheds.len()).rev() {
+            let j = rng.usize(i + 1);
+            scheds.swap(i, j);
+        }
+        scheds.truncate(if ctx.thorough { 6 } else { 3 });
+        let mut executed = 0u64;
+        let mut unclear = 0u64;
+        for (i, s) in scheds.iter().enumerate() {
+            let d = ctx.dir.join(format!("w{i}"));
+            let _ = std::fs::create_dir_all(&d);
+            let o = execute(&initial, &calls, &pre_push, Some(s), 0, Some((&d, &fspec)));
+            if let Some(w) = o.inconclusive {
+                // one execution that cannot be judged does not void the others
+                unclear += 1;
+                res.add_to_set("watcher_executions_not_judged", w);
+                continue;
+            }
+            executed += 1;
+            res.add_to_set("executed_orders_with_watcher", o.fingerprint.clone());
+            if let Err((kind, detail)) = o.final_ok {
+                res.violate(
+                    &kind,
+                    format!("C12/{kind}/specfile-watcher"),
+                    format!(
+                        "schedule {s:?} (executed order {}; w = watcher thread), calls {kinds:?}, specfile {:?}: {detail}",
+                        o.fingerprint, fspec.entries
+                    ),
+                );
+                break;
+            }
+        }
+        res.count("watcher_schedules_executed", executed);
+        res.count("watcher_executions_unclear", unclear);
+        if executed == 0 && res.verdict == Verdict::Held {
+            res.inconclusive("no execution with the specfile watcher could be judged".to_string());
+        }
+        res.absorb_panics("C12", "concurrent reconfiguration with the specfile watcher");
+        res.nontrivial = executed >= 1;
+        res.shape = format!("{}|watcher", res.shape);
+        if ctx.case < 40 || res.verdict != Verdict::Held {
+            res.sample = Some(json!({
+                "initial": format!("{:?}", initial.entries),
+                "calls": calls.iter().map(|c| format!("{c:?}")).collect::<Vec<_>>(),
+                "specfile": fspec.to_toml_text(),
+                "executions": executed,
+            }));
+        }
+        return res;
+    }
     let controlled = ctx.case % 5 != 4;
     let mut executed = 0u64;
     if controlled {
@@ -347,7 +472,7 @@ pub fn run_case(ctx: &mut CaseCtx) -> CaseResult {
             res.count("tuples_with_all_schedules_executed", 1);
         }
         for s in &scheds {
-            let o = execute(&initial, &calls, &pre_push, Some(s), 0);
+            let o = execute(&initial, &calls, &pre_push, Some(s), 0, None);
             executed += 1;
             res.add_to_set("executed_orders", o.fingerprint.clone());
             if let Some(w) = o.inconclusive {
@@ -369,7 +494,7 @@ pub fn run_case(ctx: &mut CaseCtx) -> CaseResult {
         res.count("controlled_schedules_executed", executed);
     } else {
         for k in 0..40u64 {
-            let o = execute(&initial, &calls, &pre_push, None, rng.next() ^ k);
+            let o = execute(&initial, &calls, &pre_push, None, rng.next() ^ k, None);
             executed += 1;
             if let Err((kind, detail)) = o.final_ok {
                 res.violate(
